@@ -25,10 +25,12 @@ import (
 type RefRelay struct {
 	W           *World
 	Epoch       uint64
-	Reopens     int                     // remaining re-opens the environment may inject
-	Fails       int                     // remaining stream failures
-	Resets      int                     // remaining "session state lost between two client streams" events
-	Detaches    int                     // remaining partner detach (Closed) + re-attach pairs
+	Reopens     int // remaining re-opens the environment may inject
+	Fails       int // remaining stream failures
+	Resets      int // remaining "session state lost between two client streams" events
+	Detaches    int // remaining partner detach (Closed) + re-attach pairs
+	DeferAcks   int // remaining acknowledgements the relay may hold back until the client's next request
+	deferred    []uint64
 	Inbound     []*signaling.SessionMsg // messages from the partner to deliver to the client
 	n           int
 	partnerGone bool
@@ -129,6 +131,16 @@ func (r *RefRelay) serve(d *sigfake.Duplex) {
 			return
 		}
 		req := m.(*signaling.SessionRequest)
+		if _, isSend := req.GetBody().(*signaling.SessionRequest_SendMsg); isSend && len(r.deferred) > 0 {
+			// a held-back acknowledgement arrives late, when the client has already
+			// submitted its next message; let the client digest it before going on
+			for _, n := range r.deferred {
+				vsync.Logf("env: late ack %d", n)
+				_ = d.ToCli.Push(&signaling.SessionResponse{Body: &signaling.SessionResponse_AckMsg{AckMsg: n}})
+			}
+			r.deferred = nil
+			vsync.Quiesce()
+		}
 		if r.Script != nil {
 			for _, resp := range r.Script(r, req) {
 				_ = d.ToCli.Push(resp)
@@ -168,6 +180,11 @@ func (r *RefRelay) serve(d *sigfake.Duplex) {
 			}
 			r.Acked = append(r.Acked, string(b.SendMsg.GetSignedMsg().GetData()))
 			vsync.LogOrdered("relay: partner received %s", string(b.SendMsg.GetSignedMsg().GetData()))
+			if r.DeferAcks > 0 && vsync.Choose(2) == 1 {
+				r.DeferAcks--
+				r.deferred = append(r.deferred, b.SendMsg.GetSeqno())
+				continue
+			}
 			_ = d.ToCli.Push(&signaling.SessionResponse{Body: &signaling.SessionResponse_AckMsg{AckMsg: b.SendMsg.GetSeqno()}})
 		case *signaling.SessionRequest_AckMsg:
 			r.Received = append(r.Received, fmt.Sprint(b.AckMsg))
